@@ -35,7 +35,7 @@ let show_trace t = String.concat ";" (List.map show_event t)
 let show_panic = function
   | POverflow -> "overflow" | PNoMemory -> "nomem" | PMprotect -> "mprotect" | POutOfBranchRange -> "range"
   | PSigMismatch -> "sig" | PNull -> "null" | PBoolGate -> "boolgate" | PUnexpectedArgs -> "args"
-  | POverCalled -> "overcalled" | PCountMismatch (_, _) -> "count" | PUser -> "user"
+  | POverCalled -> "overcalled" | PCountMismatch (e, a) -> Printf.sprintf "count:%s:%s" (BZ.to_string (bz_of_z e)) (BZ.to_string (bz_of_z a)) | PUser -> "user"
 let show_guard g = Printf.sprintf "G %s %s %d %s %s" (hz g.g_func) (hex_of_bytes g.g_orig) (int_of_nat g.g_psize) (hz g.g_jit) (hz g.g_jsize)
 
 let regname = function
@@ -78,6 +78,11 @@ let life arch oc allp reset lifo overlay answers symtab lifetimes : string =
           if BZ.sign d >= 0 && BZ.lt d (BZ.of_int (List.length bs)) then List.nth bs (BZ.to_int d) else look r in
     look ov in
   let ans = Array.of_list (split ',' answers) in
+  (* o_calls is a Peano numeral that grows by one per system call: convert incrementally *)
+  let last_n = ref O and last_i = ref 0 in
+  let int_of_nat n =
+    let i = (if n == !last_n then !last_i else match n with S m when m == !last_n -> !last_i + 1 | _ -> int_of_nat n) in
+    last_n := n; last_i := i; i in
   let k = { k_mmap = (fun n _ _ -> let i = int_of_nat n in
                         if i >= Array.length ans then raise Out_of_answers else
                         if i < Array.length ans && String.length ans.(i) > 0 && ans.(i).[0] = 'm' && ans.(i) <> "m-"
@@ -116,6 +121,9 @@ let life arch oc allp reset lifo overlay answers symtab lifetimes : string =
         let t = String.split_on_char ':' op in
         let o = match t with
           | ["I"; f; "exec"; x] -> OpInstall (zh f, KExec (zh x), None)
+          | ["I"; f; "exec"; x; ctr; n] -> OpInstall (zh f, KExec (zh x), Some { v_ctr = nat_of_int (int_of_string ctr); v_exp = zi (int_of_string n) })
+          | ["C"; "-"; "-"; m] -> OpCall (None, m = "1")
+          | ["C"; ctr; n; m] -> OpCall (Some { v_ctr = nat_of_int (int_of_string ctr); v_exp = zi (int_of_string n) }, m = "1")
           | ["I"; f; "bool"; x] -> OpInstall (zh f, KBool (x <> "0"), None)
           | ["X"; "sig"] -> OpRefuse (PSigMismatch, None)
           | ["X"; "null"] -> OpRefuse (PNull, None)
@@ -162,6 +170,14 @@ let handle (t : string list) : string =
      injector lifetimes against the kernel answers observed in the implementation's run *)
   | ["life"; arch; oc; allp; reset; lifo; overlay; answers; symtab; lifetimes] ->
     life arch (oc = "1") (allp = "1") (reset = "1") (lifo = "1") overlay answers symtab lifetimes
+  (* count <N> <panicking 0|1> <schedule: comma-separated <thread>r (the atomic RMW of a matching call) | <thread>l (a local step)> *)
+  | ["count"; n; pk; sched] ->
+    let sch = List.map (fun tk -> let l = String.length tk in
+                (nat_of_int (int_of_string (String.sub tk 0 (l - 1))), if tk.[l - 1] = 'r' then Rmw else Local)) (split ',' sched) in
+    let st = run sch in
+    let nn = nat_of_int (int_of_string n) in
+    Printf.sprintf "admitted=%d ctr=%d verdict=%s" (List.length (admitted nn st)) (int_of_nat st.ctr)
+      (match verdict0 nn st.ctr (pk = "1") with None -> "none" | Some (a, b) -> Printf.sprintf "%d:%d" (int_of_nat a) (int_of_nat b))
   | _ -> "ERR unknown command"
 
 let () =
